@@ -176,7 +176,7 @@ def walk_language(req):
                     if wk == "month":
                         d, y = pr
                         s = "%d %s %d" % (d, w, y)
-                        base = [2021, 6, 15, 12, 0, 0, 0]
+                        base = [2021, 6, 15, req.get("base_hour", 12), 0, 0, 0]
                     else:
                         s = w
                         base = pr
@@ -186,6 +186,14 @@ def walk_language(req):
                     try:
                         p = parsers.get(pk)
                         if p is None:
+                            if req.get("search_first") and kind == "languages":
+                                # the same settings reach the language through search_dates first (which works on a
+                                # normalised copy of the text): what it leaves behind must not serve the parser
+                                try:
+                                    from dateparser.search import search_dates
+                                    search_dates("abc %s. def" % s, languages=[name], settings=dict(st))
+                                except Exception:  # noqa
+                                    pass
                             p = parsers[pk] = DateDataParser(**{kind: [name]}, settings=st)
                         dd = p.get_date_data(s)
                         d_ = dd["date_obj"]
@@ -263,8 +271,10 @@ def walk_relative(req):
     en_cache = {}
     lang_sig = None
 
-    def run(kind, name, s, base):
+    def run(kind, name, s, base, normalize=None):
         st = {"RELATIVE_BASE": datetime.datetime(*base), "TIMEZONE": "UTC"}
+        if normalize is not None:
+            st["NORMALIZE"] = normalize
         try:
             dd = DateDataParser(**{kind: [name]}, settings=st).get_date_data(s)
             d_ = dd["date_obj"]
@@ -313,5 +323,11 @@ def walk_relative(req):
                     en_cache[ek] = run("languages", "en", c["text"], base)
                 eo, eper, eex = en_cache[ek]
                 rec["runs"].append({"base": base, "out": o, "period": per, "exc": ex, "en_out": eo, "en_period": eper, "en_exc": eex})
+                if req.get("twice") and base == req["bases"][0]:
+                    # the same phrase again, right away, with NORMALIZE off (the phrase is written as listed), then on again:
+                    # nothing remembered from one call may serve the next one, whose settings differ
+                    for nz in (False, True):
+                        o2, per2, ex2 = run(kind, name, s, base, normalize=nz)
+                        rec["runs"].append({"base": base, "out": o2, "period": per2, "exc": ex2, "en_out": eo, "en_period": eper, "en_exc": eex, "nz": nz})
             out.append(rec)
     return out
